@@ -185,7 +185,7 @@ func allChecksRaw() []*Check {
 				gjf("C14.rootwriter.n6", "VerifC14WriterRoot", 6, "C14.rootwriter.reported/text", "C14.rootwriter.reported/encode", "C14.rootwriter.reported/dryrun", "C14.rootwriter.complete/text"),
 			},
 			Bounds: "well-formed forests of N rows / programs of N nodes (quick 4, thorough 6). Reader: fails with a fresh error after k delivered rows, k symbolic in 0..N, routes iterator/non-iterator text, JSON, YAML, dry-run, walk, and massive-mode text, JSON, walk, mkdir and verify (FIFO; LIFO and 8 pseudo-random schedules in further jobs), k = 0 included (the failure precedes every hand-over). Writer: refuses write number j, j symbolic in 0..N (N = past the last write: never), modes text (both routes), JSON, YAML, TOML (single root), dry-run report, massive text / JSON / dry-run (FIFO policy), From-Root text (fused printer), From-Root JSON, MkdirFromRoot dry-run report on color.Output. Short writes that return a nil error violate io.Writer's contract and are not modelled. More of massive mode: C11.",
-			Assume: append([]string{parseContract, pathContract, encStub, "fatih/color under NoColor (Sprint is concatenation); bufio.Writer modelled as buffer + one Write at Flush"}, commonAssume...),
+			Assume: append([]string{parseContract, pathContract, encStub, "fatih/color under NoColor (Sprint is concatenation); bufio.Writer modelled as buffer + one Write at Flush", "reader-failure jobs: the reader's failure is the only failure of the call (massive mkdir: distinct root names; massive verify: every node present)"}, commonAssume...),
 		},
 		{
 			ID:    "C12",
